@@ -229,7 +229,9 @@ class Crate:
             return None
         key = (b.path, depth, tuple(no_impls_of))
         if key not in self._inl:
-            nb = Body(inline_raw(self, b, depth, no_impls_of), self.name)
+            # what is spliced in: the functions that exist only as parts of this one (all their call sites lie in it or in
+            # such parts).  Functions shared with other callers keep their own identity and stay calls.
+            nb = Body(inline_raw(self, b, depth, no_impls_of, only=self.owned_by(b.path, no_impls_of)), self.name)
             nb.plain = b
             self._inl[key] = nb
         return self._inl[key]
@@ -401,7 +403,7 @@ def _subst_generics(raw, sub):
     return out
 
 
-def inline_raw(crate, body, depth=3, no_impls_of=("TS",), stack=(), budget=6000, memo=None):
+def inline_raw(crate, body, depth=3, no_impls_of=("TS",), stack=(), budget=6000, memo=None, only=None):
     """raw JSON of `body` with the bodies of crate-local, statically resolved, non-recursive callees spliced in
     (helpers a function was split into are part of what the function does).  The call terminator stays in place as a
     marker whose return edge enters the callee; the callee's `return` assigns the call's destination and continues at the
@@ -426,11 +428,13 @@ def inline_raw(crate, body, depth=3, no_impls_of=("TS",), stack=(), budget=6000,
             cb = tg[0]
             if cb.kind not in ("Fn", "AssocFn") or cb.path in stack or cb.path == body.path:
                 continue
+            if only is not None and cb.path not in only:
+                continue
             if cb.raw["arg_count"] != len(t["args"]):
                 continue
             key = (cb.path, depth - 1)
             if key not in memo:
-                memo[key] = inline_raw(crate, cb, depth - 1, no_impls_of, stack + (body.path,), budget, memo)
+                memo[key] = inline_raw(crate, cb, depth - 1, no_impls_of, stack + (body.path,), budget, memo, only)
             craw = memo[key]
             if len(blocks) + len(craw["blocks"]) > budget:
                 continue
@@ -446,7 +450,8 @@ def inline_raw(crate, body, depth=3, no_impls_of=("TS",), stack=(), budget=6000,
                 blocks[bi]["stmts"].append({"k": "assign", "dst": {"l": loff + 1 + i, "p": []}, "rv": {"k": "use", "op": a}, "inl_arg": True})
             for cblk in craw["blocks"]:
                 nb = _shift(cblk, loff, boff)
-                nb["inl"] = cb.path
+                nb["inl_chain"] = [cb.path] + list(nb.get("inl_chain") or [])
+                nb["inl"] = nb.get("inl") or cb.path       # the innermost function the block comes from
                 nb["inl_site"] = bi
                 if nb["term"]["k"] == "return":
                     nb["stmts"].append({"k": "assign", "dst": t["dst"], "rv": {"k": "use", "op": {"k": "move", "pl": {"l": loff, "p": []}}}, "inl_ret": True})
@@ -561,6 +566,14 @@ def def_sites(body, local):
     return out
 
 
+def real_defs(body, local):
+    """def_sites without clean-up blocks; a spliced-in call counts once (the marker call, not the copy-out of its result)"""
+    ds = [d for d in def_sites(body, local) if not body.is_cleanup(d[0])]
+    if any(i == "term" and d.get("inlined") for _, i, d in ds):
+        ds = [d for d in ds if not (d[1] != "term" and d[2].get("inl_ret"))]
+    return ds
+
+
 IDENTITY_CALLS = [
     r"convert::AsRef.*::as_ref$", r"::as_ref$", r"borrow::ToOwned::to_owned$", r"::to_owned$", r"clone::Clone::clone$",
     r"::to_path_buf$", r"convert::Into::into$", r"convert::From::from$", r"ops::Deref::deref$", r"ops::DerefMut::deref_mut$",
@@ -568,7 +581,7 @@ IDENTITY_CALLS = [
 ]
 
 
-def origins(body, local, max_steps=4000, identity=IDENTITY_CALLS, through_try=True, visited=None):
+def origins(body, local, max_steps=4000, identity=IDENTITY_CALLS, through_try=True, visited=None, stop=None, transparent=False):
     """Backward slice from `local` to the calls / args / constants its value derives from.
     Returns list of dicts: {"kind": "call", "t": terminator, "block": b} | {"kind":"arg","local":n}
     | {"kind":"const","c":...} | {"kind":"agg","rv":...} | {"kind":"unknown"}.
@@ -593,6 +606,12 @@ def origins(body, local, max_steps=4000, identity=IDENTITY_CALLS, through_try=Tr
             out.append({"kind": "arg", "local": l})
             # arguments may also be reassigned; continue to look at defs
         defs = def_sites(body, l)
+        if stop and any(i == "term" and d.get("inlined") and fn_matches(d, *stop) for _, i, d in defs):
+            # a spliced-in helper the caller wants to see as one step: report the call, do not look inside
+            defs = [(b, i, d) for b, i, d in defs if i == "term"]
+        elif transparent and any(i == "term" and d.get("inlined") for _, i, d in defs):
+            # spliced-in helpers are looked through: the value is whatever the helper returns
+            defs = [(b, i, d) for b, i, d in defs if not (i == "term" and d.get("inlined"))]
         if not defs and not (1 <= l <= body.raw["arg_count"]):
             out.append({"kind": "unknown", "local": l})
         for b, i, d in defs:
